@@ -28,6 +28,7 @@ import contextlib
 import multiprocessing
 import os
 import socket
+import time
 import struct
 import traceback
 
@@ -850,7 +851,55 @@ def witness_read(ent, spec, want, fail):
         fail('tcp:witness-reads-other-values', [rc.canon_value(spec['type'], v) for v in vals], want)
 
 
+def tcp_split_tail(case, stats):
+    """A complete request delivered in two pieces, the second one shorter than an encapsulation header (1..23 bytes), and then
+    nothing more: the request is acted upon and answered once its final byte is there -- not only when more bytes arrive."""
+    ent = tcp_server()
+    srv = ent['srv']
+    op = case['ops'][0]
+    j = case['tail']
+    for sp in TCP_SPECS:
+        srv.set_values(sp['name'], [model.default_value(sp['type'])] * sp['length'])
+    sock, handle = open_session(srv, 'session under test (split tail)')
+    ctx = unhx(op['ctx'])
+    frame = rc.rr_frame(handle, tcp_ops_messages([op])[0], ctx)
+    j = max(1, min(j, 23, len(frame) - 1))
+    stats.case(case, nontrivial=True, classes=['tcp:split-tail:%d' % j])
+    try:
+        sock.settimeout(TMO)
+        sock.sendall(frame[:-j])
+        time.sleep(0.05)
+        sock.sendall(frame[-j:])
+        fr, left, eof = sim.recv_frames(sock, 1, 15.0)
+        if not fr and not eof:
+            # no answer in 15 s while the connection is idle: confirm positively by delivering one more (complete, 24-byte) frame
+            sock.sendall(rc.encap(rc.CMD['list_services'], handle, b'', b'nudge\0\0\0'))
+            fr2, _, eof2 = sim.recv_frames(sock, 2, 10.0)
+            if fr2:
+                stats.fail('tcp-truncation', 'tcp:complete-request-answered-only-after-more-bytes-arrived', case,
+                           observed={'final_piece_bytes': j, 'frames_after_the_extra_frame': len(fr2), 'waited_s': 15},
+                           expected='the reply follows the delivery of the final byte of the request')
+                return
+            raise HarnessError('no reply to a split request within 15 s, none after a further frame either (inconclusive)')
+        if not fr:
+            stats.fail('tcp-truncation', 'tcp:no-reply-for-complete-frame', case, observed={'eof': True, 'final_piece_bytes': j}, expected={'replies': 1})
+            return
+        e, m = rc.dec_rr_reply(fr[0])
+        r = rc.dec_mr_reply(m)
+        if not (e['status'] == 0 and e['context'] == ctx and r['status'] == 0):
+            stats.fail('tcp-truncation', 'tcp:reply-does-not-answer-its-request', case, observed={'reply': fr[0].hex()[:200]}, expected='success reply')
+        want = model_after([op], 1).snapshot()
+        got = srv.snapshot()
+        if got != want:
+            stats.fail('tcp-truncation', 'tcp:complete-frame-not-applied', case, observed={n: got[n] for n in got if got[n] != want[n]},
+                       expected={n: want[n] for n in got if got[n] != want[n]})
+    finally:
+        sock.close()
+
+
 def tcp_case(case, stats):
+    if case.get('tail'):
+        return tcp_split_tail(case, stats)
     if case['k'] == 'all':
         if case.get('register_only'):
             total = len(rc.register())
@@ -1112,6 +1161,9 @@ def shard(job):
 
         if kind == 'tcp':
             common.hyp_run(s, tcp_strategy(skey), guarded, n, sd, 'tcp-truncation', PID, skey=skey)
+            # the same kind of request delivered whole but in two pieces, the last one 1..23 bytes long
+            common.hyp_run(s, st.builds(lambda c, j: dict(c, ops=c['ops'][:1], k=0, tail=j), tcp_strategy(skey), st.integers(1, 23)),
+                           guarded, max(4, n // 2), sd + 11, 'tcp-truncation', PID, skey=skey)
         else:
             common.run_pred(guarded, {'ops': [], 'register_only': True, 'k': 'all'}, s, 'tcp-truncation')
         if state['err'] is not None:
